@@ -88,6 +88,18 @@ func drawMappingSpec(r *engine.PRNG, n *engine.Node) {
 	n.Map = mappingKinds[r.Intn(3)]
 	n.Alpha = engine.F64(drawAlpha(r))
 	n.ByGam = false
+	if r.Pct(6) {
+		// a mapping built directly from a "round" base, as a user of NewXMappingWithGamma would:
+		// 1/log2(base) is then exact and bin edges fall on powers of two
+		n.ByGam = true
+		n.Gamma = engine.F64([]float64{2, 4, math.Sqrt2, math.Pow(2, 1.0/4), math.Pow(2, 1.0/8), math.Pow(2, 1.0/32), math.Pow(2, 1.0/64), 1.5, 1.02}[r.Intn(9)])
+		n.Offset = engine.F64([]float64{0, 0, 1, -3, 0.5}[r.Intn(5)])
+		n.Alpha = 0.5 // placeholder, replaced by the accuracy this base gives
+		if m, err := buildMapping(n); err == nil {
+			n.Alpha = engine.F64(m.RelativeAccuracy())
+		}
+		return
+	}
 	if r.Pct(25) {
 		m, err := buildMapping(n)
 		if err != nil {
